@@ -370,7 +370,11 @@ def guard_of_assign(repo, spec):
                 visit_stmt(child, guards)
 
     def visit_stmt(st, guards):
-        if isinstance(st, ast.Assign) and len(st.targets) == 1 and ast.unparse(st.targets[0]).replace("'", '"') == spec['target']:
+        if isinstance(st, ast.Assign) and len(st.targets) == 1 and ast.unparse(st.targets[0]).replace("'", '"') == spec['target'] \
+                and ('value' not in spec or ast.unparse(st.value) == spec['value']):
+            found.append((st, guards))
+        elif isinstance(st, ast.AugAssign) and ast.unparse(st.target) == spec['target'] \
+                and ('value' not in spec or ast.unparse(st.value) == spec['value']):
             found.append((st, guards))
         elif isinstance(st, ast.If):
             for s2 in st.body:
